@@ -65,6 +65,14 @@ type c01DeepResult struct {
 	OutAddr uint64
 	Out     []byte // final content of the output region
 	Name    string
+	// device-to-device copy: what EnqueueMemCopyD2D put into the queue
+	NoLaunch bool   // no kernel launch (fewer than 4 bytes)
+	KernN    int64  // N of KernelMemCopyArgs
+	TailSrc  uint64 // source of the device-to-host copy of the tail bytes
+	TailDst  uint64 // destination of the host-to-device copy of the tail bytes
+	TailLen  int
+	TailBufs bool   // both tail commands use the same host slice
+	NumCmds  int
 }
 
 type c01Region struct {
@@ -380,6 +388,54 @@ func c01DeepChild(args []string) {
 			lk = x
 		}
 	}
+	res.NumCmds = len(queue.VerifCommands())
+	if spec.Kind == "copy" {
+		var d2h *driver.MemCopyD2HCommand
+		var h2d *driver.MemCopyH2DCommand
+		for _, c := range queue.VerifCommands() {
+			switch x := c.(type) {
+			case *driver.MemCopyD2HCommand:
+				d2h = x
+			case *driver.MemCopyH2DCommand:
+				// the launch enqueues host-to-device copies of code, arguments and packet; the tail copy's
+				// source is a byte slice
+				if _, ok := x.Src.([]byte); ok && d2h != nil {
+					h2d = x
+				}
+			}
+		}
+		if d2h != nil && h2d != nil {
+			res.TailSrc, res.TailDst = uint64(d2h.Src), uint64(h2d.Dst)
+			a, okA := d2h.Dst.([]byte)
+			b, okB := h2d.Src.([]byte)
+			if okA && okB {
+				res.TailLen = len(a)
+				res.TailBufs = len(a) == len(b) && (len(a) == 0 || &a[0] == &b[0])
+			}
+		}
+		if lk != nil {
+			if ka, ok := c01LaunchArgs(queue, lk).(*driver.KernelMemCopyArgs); ok {
+				res.KernN = ka.N
+			}
+		}
+	}
+	if lk == nil && spec.Kind == "copy" {
+		// fewer than four bytes: no kernel launch, only the tail copy
+		res.NoLaunch = true
+		res.Regions = []c01Region{{uint64(dIn), in}, {uint64(dOut), out0}}
+		res.OutAddr = uint64(dOut)
+		drv.DrainCommandQueue(queue)
+		res.Out = make([]byte, len(out0))
+		drv.MemCopyD2H(ctx, res.Out, dOut)
+		inAfter := make([]byte, len(in))
+		drv.MemCopyD2H(ctx, inAfter, dIn)
+		if string(inAfter) != string(in) {
+			res.Fault = "input buffer modified"
+		}
+		res.Done = true
+		save()
+		os.Exit(0)
+	}
 	if lk == nil {
 		res.Fault = "no launch command in the queue"
 		save()
@@ -420,6 +476,16 @@ func c01DeepChild(args []string) {
 }
 
 func (r *Rng) PickU32(xs ...uint32) uint32 { return xs[r.Intn(len(xs))] }
+
+// the (patched) kernel-argument struct of a launch: the source of the host-to-device copy to KernargAddress
+func c01LaunchArgs(q *driver.CommandQueue, lk *driver.LaunchKernelCommand) interface{} {
+	for _, c := range q.VerifCommands() {
+		if h, ok := c.(*driver.MemCopyH2DCommand); ok && uint64(h.Dst) == lk.Packet.KernargAddress {
+			return h.Src
+		}
+	}
+	return nil
+}
 
 // ---- parent -----------------------------------------------------------------------------------
 
@@ -472,6 +538,43 @@ func c01CaseLine(res c01DeepResult) string {
 		hex.EncodeToString(res.Code), res.CO, res.Entry, res.Grid[0], res.Grid[1], res.Grid[2], res.WG[0], res.WG[1], res.WG[2],
 		res.Flags, res.V5, res.WI, res.KA, hex.EncodeToString(res.KABytes), res.PA, hex.EncodeToString(res.PABytes),
 		strings.Join(regs, "/"), res.OutAddr, len(res.Out))
+}
+
+// correspondence cases and plan oracles of one device-to-device copy
+func c01CopyCases(r *Run, spec c01DeepSpec, res c01DeepResult, id string) {
+	n := spec.N
+	src, dst := res.Regions[0].Addr, res.Regions[1].Addr
+	// the plan: grid and N of the launch, offset and length of the tail copy
+	words := 0
+	if !res.NoLaunch {
+		words = int(res.Grid[0])
+		r.Checked("deep-copy-plan")
+		if res.KernN != int64(words) || res.Grid[1] != 1 || res.Grid[2] != 1 || res.WG != [3]uint16{64, 1, 1} {
+			r.Failf("C01.deep.copy-plan.launch", id, "grid=%v wg=%v N=%d", res.Grid, res.WG, res.KernN)
+		}
+	}
+	off := uint64(words) * 4
+	if res.TailLen > 0 {
+		r.Checked("deep-copy-plan")
+		if res.TailSrc-src != res.TailDst-dst || !res.TailBufs {
+			r.Failf("C01.deep.copy-plan.tail", id, "tail copy src+%d -> dst+%d, same host slice: %v", res.TailSrc-src, res.TailDst-dst, res.TailBufs)
+		}
+		off = res.TailSrc - src
+	}
+	r.Case(fmt.Sprintf("c01 d2dplan num=%d", n), fmt.Sprintf("words=%d tail=%d:%d", words, off, res.TailLen))
+	tail := fmt.Sprintf("tail=%x:%x:%d", res.TailDst, res.TailSrc, res.TailLen)
+	if res.NoLaunch {
+		r.Count("deep-copy-no-launch")
+		regs := []string{}
+		for _, g := range res.Regions {
+			regs = append(regs, fmt.Sprintf("%x:%s", g.Addr, hex.EncodeToString(g.Data)))
+		}
+		r.Case(fmt.Sprintf("c01 d2dtail mem=%s %s out=%x:%d", strings.Join(regs, "/"), tail, res.OutAddr, len(res.Out)),
+			hex.EncodeToString(res.Out))
+		return
+	}
+	line := c01CaseLine(res)
+	r.Case("c01 d2d"+strings.TrimPrefix(line, "c01 emu")+" "+tail, hex.EncodeToString(res.Out))
 }
 
 // host references of the integer kernels (oracle, independent of the Lean model)
@@ -560,8 +663,12 @@ func runC01Deep(r *Run, rng *Rng, replay string) {
 		}
 		r.Count("deep-kernel-" + res.Name)
 		r.CountN("deep-code-bytes", len(res.Code))
-		r.Case(c01CaseLine(res), hex.EncodeToString(res.Out))
-		if spec.Kind == "copy" && !copyCodeDone {
+		if spec.Kind == "copy" {
+			c01CopyCases(r, spec, res, id)
+		} else {
+			r.Case(c01CaseLine(res), hex.EncodeToString(res.Out))
+		}
+		if spec.Kind == "copy" && !res.NoLaunch && !copyCodeDone {
 			// the bytes the real loader extracted from amd/driver/memcopy.hsaco vs the literal the proofs are about
 			copyCodeDone = true
 			r.Case("c01 copycode", hex.EncodeToString(res.Code))
@@ -573,18 +680,17 @@ func runC01Deep(r *Run, rng *Rng, replay string) {
 			if string(res.Out[:n]) != string(in[:n]) {
 				r.Failf("C01.deep.copy-prefix", id, "the first %d bytes of dst differ from src", n)
 			}
-			up := (n + 3) / 4 * 4
+			// exact range: nothing behind dst+n changes (the tail of the last dword used to be overwritten)
 			r.Checked("deep-copy-frame")
-			if string(res.Out[up:]) != string(out0[up:]) {
-				r.Failf("C01.deep.copy-frame", id, "bytes of dst at offset >= %d changed", up)
-			}
-			if up > n {
-				r.Count("deep-copy-unaligned-length")
-				if string(res.Out[n:up]) != string(out0[n:up]) {
-					// MemCopyD2D(num) launches ceil(num/4) work-items of 4 bytes each: the tail dword is copied whole
-					r.Count("deep-copy-tail-overrun")
-					r.Note("copyKernel: MemCopyD2D of %d bytes overwrote dst[%d:%d] (whole tail dword copied)", n, n, up)
+			if string(res.Out[n:]) != string(out0[n:]) {
+				first := n
+				for first < len(out0) && res.Out[first] == out0[first] {
+					first++
 				}
+				r.Failf("C01.deep.copy-frame", id, "byte %d of dst (behind the %d requested bytes) changed", first, n)
+			}
+			if n%4 != 0 {
+				r.Count("deep-copy-unaligned-length")
 			}
 			continue
 		}
